@@ -133,6 +133,13 @@ def _impl(tier, seed, search):
         if ok:
             s2 = max(1.0, geom.tmag(e1.A), geom.tmag(e2.A), geom.tmag((e1 * e2).A))
             L.close('emb SE2->SE3:hom', r[0], r[1], TOL, s2, dict(X=e1.A, Y=e2.A)); L.close('emb SE2->SE3:points', r[2], r[3], TOL, max(s2, float(np.max(np.abs(p2)))), dict(X=e1.A, p=p2))
+        # the embedding of a multi-valued object embeds every value (no sharing between the results)
+        if i % 3 == 0:
+            ok, r = L.noraise('SE2->SE3(multi)', lambda: ([np.asarray(a_, float) for a_ in SE2([e1.A, e2.A], check=False).SE3().data], [e1.SE3().A, e2.SE3().A]), dict(X=e1.A, Y=e2.A), 'SE3() of a 2-valued SE2')
+            if ok:
+                L.check('emb SE2->SE3(multi):len', len(r[0]) == 2, dict(X=e1.A, Y=e2.A), 'SE3() of a 2-valued SE2 does not hold 2 values')
+                if len(r[0]) == 2:
+                    for k_ in range(2): L.close('emb SE2->SE3(multi)', r[0][k_], r[1][k_], TOL, max(1.0, geom.tmag(r[1][k_])), dict(X=e1.A, Y=e2.A, k=k_), sig='emb SE2->SE3(multi)')
         # 2-D pose <-> twist
         ok, r = L.noraise('SE2->Twist2->SE2', lambda: e1.Twist2().SE2().A, dict(T=e1.A), 'SE2 -> Twist2 -> SE2')
         if ok: L.close('SE2->Twist2->SE2', r, e1.A, TOL, max(1.0, geom.tmag(e1.A)), dict(T=e1.A))
